@@ -274,6 +274,10 @@ type monitor struct {
 	nextIdx int
 	// counters (under mu)
 	cnt map[string]int
+	// extra witness data merged into every query added while it is set (only
+	// the generator goroutine touches it; the map is never modified after
+	// being set)
+	extra map[string]interface{}
 }
 
 const batchSize = 2048
@@ -320,6 +324,20 @@ func (m *monitor) add(q query) {
 	for i := 0; i < q.nf; i++ {
 		if !q.null[i] && strings.IndexByte(q.f[i], 0) >= 0 {
 			return // a C string cannot carry a NUL: no caller can pass this
+		}
+	}
+	if m.extra != nil {
+		if len(q.info) <= 1 { // nothing or just the stream name, which extra carries too
+			q.info = m.extra
+		} else {
+			info := make(map[string]interface{}, len(q.info)+len(m.extra))
+			for k, v := range q.info {
+				info[k] = v
+			}
+			for k, v := range m.extra {
+				info[k] = v
+			}
+			q.info = info
 		}
 	}
 	if m.cur == nil {
@@ -640,6 +658,13 @@ func (m *monitor) nameQuery(s string, idx int, stream string) {
 				"snap-confine":   map[string]string{"sc_snap_name_validate": yn(r&1 != 0), "sc_instance_name_validate": yn(r&2 != 0), "sc_snap_component_validate": yn(r&16 != 0)},
 				"snap-update-ns": map[string]string{"validate_snap_name": yn(r&4 != 0), "validate_instance_name": yn(r&8 != 0)}})
 		}
+		if strings.HasPrefix(stream, "unicode") {
+			if acc {
+				m.count("unicode_name_strings_accepted_by_some_validator", 1)
+			} else {
+				m.count("unicode_name_strings_rejected_by_all", 1)
+			}
+		}
 		if !acc {
 			return
 		}
@@ -946,7 +971,7 @@ func mutate(r *rand.Rand, base string) string {
 func TestVerifC24(t *testing.T) {
 	c := kit.New("C24", "exploration")
 	defer c.Done(t)
-	c.Rule(fmt.Sprintf("inputs: (1) every byte string of length <= %d over the covering alphabet %q (one representative per character class any validator distinguishes; sharded by enumeration index) given to all five single-string validators, and (length <= %d) as app and hook name to snap.ValidateApp/ValidateHook and placed in the snap and in the component slot of a <snap>+<comp> name; (2) every string of length <= %d over the same alphabet substituted into each of %d slots of security-tag templates (instance, key, component, app, hook, the literals, separators, prefix, suffix); (3) names/keys/components/tags of boundary lengths (39/40/41, 10/11, 50..53, 255/256/257, 1000, 5000) built from valid and almost-valid patterns; (4) seeded random mutations (1-3 edits over a wider alphabet) of valid names, instances, components and tags; (5) snap.yaml documents with generated app, hook, component names. Strings containing NUL are never sent (a C string cannot carry one). non-trivial = a distinct input that at least one of the compared implementations ACCEPTS (names, components), a distinct (tag, instance, component) triple accepted by snap-confine or parsed-as-such by the daemon, or a distinct (instance, component, app/hook name) accepted by snap.ValidateApp/ValidateHook; inputs that every implementation rejects are evaluated and compared but not counted. Enumerated inputs are distinct by construction.", exhaustiveLen(), alphabet, compSlotLen(), tagSlotLen(), numTemplates))
+	c.Rule(fmt.Sprintf("inputs: (1) every byte string of length <= %d over the covering alphabet %q (one representative per character class any validator distinguishes; sharded by enumeration index) given to all five single-string validators, and (length <= %d) as app and hook name to snap.ValidateApp/ValidateHook and placed in the snap and in the component slot of a <snap>+<comp> name; (2) every string of length <= %d over the same alphabet substituted into each of %d slots of security-tag templates (instance, key, component, app, hook, the literals, separators, prefix, suffix); (3) names/keys/components/tags of boundary lengths (39/40/41, 10/11, 50..53, 255/256/257, 1000, 5000) built from valid and almost-valid patterns; (4) seeded random mutations (1-3 edits over a wider alphabet) of valid names, instances, components and tags; (5) snap.yaml documents with generated app, hook, component names; (6) multi-byte UTF-8: a fixed table of code points of every relevant general category and script (lower case of Latin-1/Latin Extended/Greek/Cyrillic/Armenian/Georgian/fullwidth/4-byte, decimal digits of many scripts, other numbers, upper/title case, caseless letters, marks, dash/underscore/dot/plus look-alikes, symbols, spaces, controls/format/private use/noncharacters, U+212A and U+017F), the first, last and seeded members of every general category table and seeded Ll/Nd members of every script, malformed encodings (overlong, truncated, lone/surplus continuation, surrogates, beyond U+10FFFF, 5/6-byte forms), each placed first/middle/last/alone/twice/next to dashes/at the 40-byte and 40-rune limits of otherwise valid names, in instance keys, component names, app and hook names and 7 tag-template slots; per-position look-alike substitutions of valid names and tags; seeded 1-3 Unicode edits; the well-formed ones also through snap.yaml/component.yaml. Strings containing NUL are never sent (a C string cannot carry one). non-trivial = a distinct input that at least one of the compared implementations ACCEPTS (names, components), a distinct (tag, instance, component) triple accepted by snap-confine or parsed-as-such by the daemon, or a distinct (instance, component, app/hook name) accepted by snap.ValidateApp/ValidateHook; inputs that every implementation rejects are evaluated and compared but not counted. Enumerated inputs are distinct by construction.", exhaustiveLen(), alphabet, compSlotLen(), tagSlotLen(), numTemplates))
 	c.Assume("the process locale of snap-confine/snap-update-ns is the C locale (neither calls setlocale), so islower/isdigit/regexec are byte-wise; the driver runs with LC_ALL=C and never calls setlocale")
 	c.Assume("snap-confine's tag length limit is 256 bytes (SNAP_SECURITY_TAG_MAX_LEN); tags longer than that are sent for the sanitizers but not compared")
 	c.Assume("for the tag clause the given instance/component range over names that naming.ValidateInstance/ValidateSnap accept (three-way agreement of those is judged separately on the same strings)")
@@ -1152,7 +1177,12 @@ func TestVerifC24(t *testing.T) {
 	}
 
 	// ---- (5) snap.yaml documents --------------------------------------------
-	m.yamlDocs(yamlNames, pools, rnd)
+	urnd := kit.NewRand("c24-unicode")
+	useqs := unicodeSequences(urnd)
+	m.yamlDocs(yamlNames, yamlUnicodeNames(useqs, shard, nshard), pools, rnd)
+
+	// ---- (6) multi-byte UTF-8 in otherwise well-formed names and tags -------
+	m.unicodeStream(useqs, pools, urnd, shard, nshard)
 
 	m.finish()
 	if m.broken != "" {
@@ -1175,6 +1205,14 @@ func TestVerifC24(t *testing.T) {
 	c.Floor("yaml_component_hooks_accepted", 20)
 	c.Floor("component_yaml_accepted", 20)
 	c.Floor("component_yaml_rejected", 20)
+	c.Floor("unicode_sequences", int64(kit.Scale(300, 100)))
+	c.Floor("unicode_sequences_Ll", 20)
+	c.Floor("unicode_sequences_Nd", 20)
+	c.Floor("unicode_sequences_malformed", int64(kit.Scale(10, 3)))
+	c.Floor("name_strings_unicode", 10000)
+	c.Floor("tags_unicode", 2000)
+	c.Floor("name_strings_unicode-mutation", 500)
+	c.Floor("tags_unicode-mutation", 500)
 	c.Note("exhaustive", map[string]interface{}{"alphabet": printable(string(alphabet)), "max_len": exhaustiveLen(), "max_tag_slot_len": tagSlotLen(), "tag_templates": numTemplates,
 		"example_templates":   []string{"snap.<s>.app", "snap.foo.hook.<s>", "snap.foo+<s>.hook.install", "snap.foo.app<s>", "<s>snap.foo.app"},
 		"valid_instance_pool": len(pools.insts), "valid_component_pool": len(pools.comps)})
@@ -1280,7 +1318,7 @@ func (m *monitor) appHook(name string, p *tagPools, idx int, stream string) {
 // yamlDocs goes through the real snap.yaml parser: apps with generated names,
 // hooks whose names match the supported patterns with generated suffixes,
 // components with generated names carrying the supported component hooks.
-func (m *monitor) yamlDocs(shortNames []string, p *tagPools, rnd *rand.Rand) {
+func (m *monitor) yamlDocs(shortNames, unicodeNames []string, p *tagPools, rnd *rand.Rand) {
 	dashAlpha := []string{"a", "z", "0", "9", "-"}
 	var suff []string
 	var gen func(prefix string, l int)
@@ -1417,20 +1455,36 @@ func (m *monitor) yamlDocs(shortNames []string, p *tagPools, rnd *rand.Rand) {
 		doc(p.insts[k%len(p.insts)], []string{"app"}, []string{"configure"}, cs)
 		k++
 	}
+	// well-formed non-ASCII names (stream 6) as app, hook-suffix and component
+	// names: small documents, a name the yaml layer refuses costs only its chunk
+	var uhooks []string
+	for i, s := range unicodeNames {
+		uhooks = append(uhooks, []string{"connect-plug-", "prepare-slot-", "disconnect-plug-", "unprepare-slot-"}[i%4]+s)
+	}
+	before := docs
+	for _, as := range chunk(unicodeNames, 10) {
+		doc(p.insts[k%len(p.insts)], as, nil, nil)
+		k++
+	}
+	for _, hs := range chunk(uhooks, 20) {
+		doc(p.insts[k%len(p.insts)], nil, hs, nil)
+		k++
+	}
+	for _, cs := range chunk(unicodeNames, 5) {
+		doc(p.insts[k%len(p.insts)], []string{"app"}, []string{"configure"}, cs)
+		k++
+	}
+	m.count("yaml_docs_with_unicode_names", docs-before)
+	m.count("yaml_unicode_names", len(unicodeNames))
 	m.count("yaml_docs", docs)
 	// component.yaml: the daemon's own entry point for "<snap>+<comp>" strings
-	for i := 0; i < kit.Scale(300, 1500); i++ {
-		base := snap.InstanceSnap(p.insts[rnd.Intn(len(p.insts))]) + "+" + p.comps[rnd.Intn(len(p.comps))]
-		s := base
-		if i%3 != 0 {
-			s = mutate(rnd, base)
-		}
+	compYaml := func(s, stream string) {
 		if !utf8.ValidString(s) || strings.ContainsAny(s, "\x00\n\t\x01\x7f") {
-			continue
+			return
 		}
 		b, err := yaml.Marshal(map[string]interface{}{"component": s, "type": "test", "version": "1"})
 		if err != nil {
-			continue
+			return
 		}
 		idx := m.newCase()
 		m.c.Eval()
@@ -1442,12 +1496,25 @@ func (m *monitor) yamlDocs(shortNames []string, p *tagPools, rnd *rand.Rand) {
 			m.count("component_yaml_accepted", 1)
 		case err == nil:
 			m.count("component_yaml_altered_by_yaml_unjudged", 1)
-			continue
+			return
 		default:
 			m.count("component_yaml_rejected", 1)
 		}
-		q := query{op: 'N', nf: 1, want: want, mask: 16, clause: "component.yaml", idx: idx, info: map[string]interface{}{"stream": "component.yaml", "daemon_error": fmt.Sprint(err)}}
+		q := query{op: 'N', nf: 1, want: want, mask: 16, clause: "component.yaml", idx: idx, info: map[string]interface{}{"stream": stream, "daemon_error": fmt.Sprint(err)}}
 		q.f[0] = s
 		m.add(q)
+	}
+	for i := 0; i < kit.Scale(300, 1500); i++ {
+		base := snap.InstanceSnap(p.insts[rnd.Intn(len(p.insts))]) + "+" + p.comps[rnd.Intn(len(p.comps))]
+		s := base
+		if i%3 != 0 {
+			s = mutate(rnd, base)
+		}
+		compYaml(s, "component.yaml")
+	}
+	for _, s := range unicodeNames {
+		m.count("component_yaml_unicode", 2)
+		compYaml("foo+"+s, "component.yaml:unicode")
+		compYaml(s+"+cc", "component.yaml:unicode")
 	}
 }
